@@ -102,6 +102,10 @@ func init() {
 		Scenarios: []scenSpec{{Name: "sess", Share: 1}},
 		LevelText: "the session workload of C05-C11 with one fault injected at an exact scheduling step chosen from the tape (and, in the thorough tier, swept over the steps of sampled base runs): the peer process is killed (its goroutines frozen, its descriptors closed, shared memory left as it was), the connection is severed (with or without reset), or Session.Close is called once/twice/concurrently from foreign goroutines during traffic - during the handshake or at any later step. Oracle on the survivors: session closed within 5 s (virtual), no thread still blocked 30 s later, later calls fail, callback streams get exactly one close callback, no panic or access to unmapped memory (quarantined mappings), and after Close of both ends no descriptor, mapping or /dev/shm file of the session is left (ledger of the simulated kernel).",
 		Rule: sessRule + "; fault step drawn during the handshake (absolute step 5..400) or 0..5000 steps after establishment; fault kinds kill_client, kill_server, sever, sever_rst, close_client, close_server, close_both"})
+	reg(&propSpec{ID: "C12", Level: "fault_enumeration", QuickSec: 35, ThoroughSec: 900, DesignRef: "6.C12",
+		Scenarios: []scenSpec{{Name: "hs", Share: 1}},
+		LevelText: "the real client and server handshakes over the simulated kernel for both mapping back-ends (memfd with fd passing -> protocol 3, /dev/shm file -> protocol 2), unix and tcp transport, with the peer made to stop answering (process frozen, connection open) or to die right after its k-th socket operation, k swept over the exchange; oracle: both ends succeed with the lower common version and the same buffer/queue memory seen through both mappings (pattern written through one mapping and read through the other, queues cross-wired), or both live ends fail within InitializeTimeout + 2 s, and after Close nothing (descriptor, memfd, mapping, file) is left in the ledger of the simulated kernel.",
+		Rule: "seeded session configurations x mapping type x transport x InitializeTimeout x fault (freeze|kill of client|server after its k-th socket operation, k in 0..13) x fragmentation x schedules; non-trivial = more than 2 socket operations were executed; distinct = distinct schedule signatures among non-trivial runs"})
 	reg(&propSpec{ID: "C13", Level: "exploration", QuickSec: 40, ThoroughSec: 1200, DesignRef: "6.C13",
 		Scenarios: []scenSpec{{Name: "fuzz", Share: 1}},
 		LevelText: "real sessions (client and server role, handshake and established phase) whose control connection receives generated wire-format events mutated by truncation, inconsistent lengths, bad magic/version/type, wrong direction or phase, duplication and garbage, delivered under seeded fragmentations and schedules; oracle: no panic or memory fault in any goroutine of the victim process, handshake returns within InitializeTimeout + slack, another session of the same process still completes a round trip, and a well-formed byte string has the same observable effect however it is cut into reads (differential between two victims in the same run).",
@@ -353,7 +357,7 @@ func runWorkers(dir string, scn scenSpec, prop, tier string, master uint64, budg
 				"VSIM_SEED="+strconv.FormatUint(master, 10),
 				"VSIM_START="+strconv.Itoa(i), "VSIM_STRIDE="+strconv.Itoa(workers), "VSIM_COUNT=1000000000",
 				"VSIM_BUDGET_MS="+strconv.FormatInt(budget.Milliseconds(), 10),
-				"VSIM_OUT="+outPath, "VSIM_OPTS="+string(ob), "VSIM_MAX_VIOLATIONS=40", "GOMAXPROCS=2")
+				"VSIM_OUT="+outPath, "VSIM_OPTS="+string(ob), "VSIM_MAX_VIOLATIONS=100000", "GOMAXPROCS=2")
 			var stderr strings.Builder
 			cmd.Stderr = &stderr
 			cmd.Stdout = &stderr
